@@ -276,6 +276,9 @@ def checkEngine (params : List String) (lines : List String) : CaseResult := Id.
   if !agreed then
     r := { r with diffs := (firstDiff.getD "no resolution of the selects reproduces the history") :: r.diffs }
   -- the clause of C13 about the process, on the implementation's own traces
+  -- `engineloop`: the catch event sits in a loop without an end event; the token is sent round again (`arrive`) every time
+  -- it has continued, so it may continue once per firing it was listening for, any number of times
+  let inLoop := params.getD 1 "" == "engineloop"
   let mut sp : List String := []
   let mut active := false
   let mut total := 0
@@ -285,11 +288,11 @@ def checkEngine (params : List String) (lines : List String) : CaseResult := Id.
     let want := if active && o.observed > 0 then 1 else 0
     if o.cont != want then
       sp := s!"catch_once: at {o.op} {o.arg} the catch event observed {o.observed} firings while listening={active} and continued {o.cont} times" :: sp
-    if o.done != o.cont then
+    if o.done != o.cont && !inLoop then
       sp := s!"catch_once: continued {o.cont} times but the end event completed {o.done} times at {o.op} {o.arg}" :: sp
     if o.cont > 0 then active := false
     total := total + o.cont
-  if total > 1 then sp := s!"catch_once: continued {total} times for one token" :: sp
+  if total > 1 && !inLoop then sp := s!"catch_once: continued {total} times for one token" :: sp
   return { r with specs := sp, nontrivial := total > 0 }
 
 /-! ## c13e2: several instances of the same process through one engine / fan-out / timer builder -/
